@@ -1,15 +1,58 @@
 PROP = {
     "level": "fault_enumeration",
-    "technique": "runtime monitor: stop after every durable write (kvdb interposer) + outcome equality with the uninterrupted run",
-    "level_text": "placeholder",
-    "level_note": "placeholder",
+    "technique": ("runtime monitor: kvdb interposer (E2) stops the process after every durable write of the arbitrator "
+                  "log, outcome equality with the uninterrupted run"),
+    "level_text": ("Per generated close scenario (local / remote / pending-remote / breach / coop, direct or after a "
+                   "user force close, 0-4 HTLCs: timeout path, peer claims on chain, preimage known / learned later / "
+                   "via invoice / never, dust, dangling, anchor and legacy second level) the real ChannelArbitrator, "
+                   "the real resolvers and the real bolt arbitrator log run to their terminal state against a "
+                   "restart-robust world model (chain with spends, sweeper, nursery, notifier, switch, beacon, "
+                   "registry; MarkChannelClosed / final outcomes / reports / witness cache / nursery store are writes "
+                   "in the same database). W durable writes are counted in the uninterrupted run; then for every k in "
+                   "1..W the run is repeated with the process stopped right after write k and restarted from what is "
+                   "durable exactly as ChainArbitrator.Start does (IsPendingClose/CloseType/ClosingHeight if the close "
+                   "was durable, else the chain watcher re-delivers the close). Thorough adds W random two-stop runs "
+                   "per scenario. Compared with the uninterrupted outcome: terminal state, upstream map is a function "
+                   "and equal, same resolver reports and final HTLC outcomes, fully-resolved only with an empty "
+                   "contract bucket and no HTLC/commit output left open, every durable unresolved contract has a live "
+                   "resolver after restart."),
+    "level_note": ("Stop = database frozen right after commit k AND, in the same instant in the committing goroutine, "
+                   "the process is cut off from the world (nothing it does afterwards reaches switch, chain, sweeper "
+                   "or notifier); the zombie is reaped with Stop(). That is a process stop at that instant for the "
+                   "committing goroutine with all other goroutines wherever they were; simply freezing would let "
+                   "post-stop side effects leak, simply calling Stop() is not synchronous with the write. Because "
+                   "resolver goroutines interleave, write k of a rerun is not always the k-th write of the reference "
+                   "run; the evidence counts distinct (scenario kind, lnd write site, #HTLCs) stop points instead. "
+                   "'Reaches the same terminal outcome' is bounded progress: the world is driven 12 blocks past the "
+                   "last expiry with quiescence (all goroutines parked, no world/DB activity) awaited after every "
+                   "block. The utxo nursery and the sweeper are part of the world model (their own persistence is not "
+                   "exercised). A swap that is not persisted is outcome-neutral (same resolver key, idempotent "
+                   "re-execution) and only shows up in a diagnostic."),
     "design_ref": "DESIGN.md §3 C13",
-    "rule": "placeholder",
-    "assumptions": [],
+    "rule": ("A scenario is non-trivial when its uninterrupted run reaches StateFullyResolved; every one of its W "
+             "durable writes is used as a stop point. distinct = distinct (close kind, lnd/env write site after which "
+             "the stop fell, number of HTLCs) stop-point classes actually reached."),
+    "assumptions": ["world model: a mature input offered to the sweeper confirms in the next block; re-offered inputs "
+                    "that are already spent are answered with the confirmed spender; spend/epoch registrations are "
+                    "re-answered from chain state after a restart",
+                    "MarkChannelClosed, PutFinalHtlcOutcome, PutResolverReport, AddPreimages, MarkCommitmentBroadcasted, "
+                    "IncubateOutputs are durable writes of the same kvdb backend (as in lnd) and count as stop points",
+                    "peer claims and learned preimages are scripted >= 3 blocks before the HTLC expiry so outcomes do "
+                    "not depend on goroutine scheduling"],
+    "eval_counter": "stop_runs",
     "units": [{
         "name": "restart", "pkg": "contractcourt", "test": "TestVerifC13",
         "files": ["contractcourt/c12c13_common_test.go", "contractcourt/c13_test.go"],
         "shards": {"quick": 8, "thorough": 16},
-        "floors": {},
+        "watchdog": {"quick": 600, "thorough": 5400},
+        "floors": {
+            "quick": {"scenarios": 160, "stop_runs": 2000, "oracle_terminal_evals": 2000,
+                      "oracle_upstream_evals": 2000, "oracle_no_resolver_lost_evals": 2000,
+                      "oracle_resolved_when_done_evals": 2000, "oracle_contracts_evals": 1500},
+            "thorough": {"scenarios": 12000, "stop_runs": 170000, "double_stop_runs": 170000,
+                         "double_stop_reached": 130000, "oracle_terminal_evals": 340000,
+                         "oracle_upstream_evals": 340000, "oracle_no_resolver_lost_evals": 340000,
+                         "oracle_contracts_evals": 270000},
+        },
     }],
 }
